@@ -87,6 +87,24 @@ func (criteria *SearchCriteria) And(other *SearchCriteria) {
 
 	criteria.Not = append(criteria.Not, other.Not...)
 	criteria.Or = append(criteria.Or, other.Or...)
+
+	if other.ModSeq != nil {
+		modSeq := *other.ModSeq
+		switch {
+		case criteria.ModSeq == nil:
+			criteria.ModSeq = &modSeq
+		case criteria.ModSeq.MetadataName == modSeq.MetadataName && criteria.ModSeq.MetadataType == modSeq.MetadataType:
+			if modSeq.ModSeq > criteria.ModSeq.ModSeq {
+				criteria.ModSeq = &modSeq
+			}
+		default:
+			// A single field cannot hold constraints on two different
+			// metadata entries: express the second one as NOT (NOT MODSEQ ...)
+			criteria.Not = append(criteria.Not, SearchCriteria{
+				Not: []SearchCriteria{{ModSeq: &modSeq}},
+			})
+		}
+	}
 }
 
 func intersectSince(t1, t2 time.Time) time.Time {
